@@ -112,14 +112,14 @@ func runC06(tr *Trace, sc *Script, rec *Recorder, scratch string) *Violation {
 		ctx, cancel := context.WithCancel(context.Background())
 		n := &c06Node{ctx: ctx, cancel: cancel}
 		var err error
-		n.rd, err = reorgdetector.New(&FakeClient{W: w, C: chain, Label: "rd"}, reorgdetector.Config{DBPath: rdPath,
+		n.rd, err = reorgdetector.New(&FakeClient{W: w, C: chain, Label: "rd", Epoch: w.Epoch}, reorgdetector.Config{DBPath: rdPath,
 			CheckReorgsInterval: cfgtypes.NewDuration(time.Duration(cfg["reorg_ms"]) * time.Millisecond), FinalizedBlock: detTag}, reorgdetector.L1)
 		if err != nil {
 			return &Violation{Oracle: "harness", Detail: "reorgdetector.New: " + err.Error()}
 		}
 		mk := func() error {
 			n.syncer, err = l1infotreesync.New(ctx, storePath, addrGER, addrRM, uint64(cfg["chunk"]), syncTag, n.rd,
-				&FakeClient{W: w, C: chain, Label: "dl"}, time.Duration(cfg["wait_ms"])*time.Millisecond, 0,
+				&FakeClient{W: w, C: chain, Label: "dl", Epoch: w.Epoch}, time.Duration(cfg["wait_ms"])*time.Millisecond, 0,
 				time.Duration(cfg["retry_ms"])*time.Millisecond, -1, l1infotreesync.FlagAllowWrongContractsAddrs, detTag, true)
 			return err
 		}
@@ -325,6 +325,9 @@ func runC06(tr *Trace, sc *Script, rec *Recorder, scratch string) *Violation {
 			rec.Step(fmt.Sprintf("X%d", op.Arg(0)))
 		}
 		maxHead = max(maxHead, chain.HeadNum())
+		if v := singleCaller(w, "after "+op.String()); v != nil {
+			return v
+		}
 		if v := checkStored("after " + op.String()); v != nil {
 			return v
 		}
@@ -393,6 +396,9 @@ func runC06(tr *Trace, sc *Script, rec *Recorder, scratch string) *Violation {
 			w.Advance(time.Duration(min(cfg["wait_ms"], cfg["reorg_ms"])) * time.Millisecond)
 		}
 		rec.Stats.Inc("drain_steps")
+		if v := singleCaller(w, "drain"); v != nil {
+			return v
+		}
 		if i%3 == 0 {
 			if v := checkStored("drain"); v != nil {
 				return v
@@ -429,4 +435,19 @@ func init() {
 		OpLimit:    func(cfg map[string]int64) int { return int(cfg["ops"]) },
 		Nontrivial: func(s Stats) bool { return s["runs_with_replaced_processed_block"] > 0 }})
 	_ = sort.Strings
+}
+
+// singleCaller: each component label stands for one node goroutine chain (one downloader, one
+// detector loop). Two calls of the same component parked at once mean that a superseded
+// downloader is still running after a reorg or restart was handled.
+func singleCaller(w *World, ctx string) *Violation {
+	seen := map[string]bool{}
+	for _, p := range w.Parked() {
+		if seen[p.label] {
+			return &Violation{Oracle: "stale-downloader", Sig: "c06/stale-downloader",
+				Detail: fmt.Sprintf("%s: two concurrent RPC calls of component %q are in flight: the previous downloader was not stopped when the reorg was handled", ctx, p.label)}
+		}
+		seen[p.label] = true
+	}
+	return nil
 }
